@@ -13,7 +13,10 @@ ASSUMPTIONS = [
     "the per-kind theorems state that the owners an effect function takes from are among the payload fields returned by Signers() "
     "(coq/gen/Facts_Signers.v, regenerated from the source on every run) plus the validator's stake address for the fee of validator "
     "operations; that the signatures really belong to those addresses is C04",
-    "OLVM / contract accounts are outside the histories of this check (C17)",
+    "OLVM transactions: the authority is the account recovered by go-ethereum's EIP-155 signer from the signature over the embedded "
+    "Ethereum transaction (recomputed by the harness, independent of the payload's From and of the handler); accounts with contract "
+    "code (keeper record with a non-empty code hash, or code/storage records) are not externally owned - what a contract does with "
+    "its own balance is C17's matter",
 ]
 
 MINE = set(C03_CLASSES)
